@@ -26,7 +26,7 @@ LEVEL_NOTE = ('PARTIAL PROOF (category proof because Lean theorems carry the com
 TECHNIQUE = 'Lean 4 proof (induction over histories, decide +kernel on a regenerated effect table) + history-based differential correspondence'
 GEN = ['Effects', 'Extent', 'FftScratch', 'FieldDispatch', 'FieldIdx', 'FieldMerge', 'FourierWiring', 'Helper', 'Helper20', 'Hex', 'Mesh', 'PlanePhase', 'PlaneType', 'PropagateMeta', 'TiltFit', 'Util', 'Window']     # every Gen module the model, lemmas, theorems and driver ops import (transitively)
 OPS = ['C10']
-RULE = ('one table-driven smoke case per run: every public function of the effect table is called once on fixtures chosen by parameter name (about 145 of 174 callable; the rest are listed in UNPROVEN) and the changed argument slots / global generator are compared with its table row; cases: random histories (length 5..40) of public calls — plane/pupil construction from shared arrays, attribute updates, '
+RULE = ('one table-driven smoke case per run: every public function of the effect table is called once on fixtures chosen by parameter name (those the fixtures do not fit are listed by name in UNPROVEN on every run) and the changed argument slots / global generator are compared with its table row; cases: random histories (length 5..40) of public calls — plane/pupil construction from shared arrays, attribute updates, '
         'fit_tilt (copy and in-place), copy, rescale, multiply, propagate_dft/fft (with scratch), Wavefront.insert/intensity, dft2/idft2 '
         'with repeated shapes and varying offsets/shifts and out=, adc/collect_charge/bayer/pixel/pixelate/charge_diffusion, seeded and '
         'unseeded noise models, jitter/smear, util.rescale/rebin/pad/normalize_power, power_spectrum/zernike, Spectrum arithmetic/sample/'
@@ -37,12 +37,10 @@ TRUSTED = ['the alias rule of the effect-site scan (tools/specs/c10.py docstring
            'byte-level snapshots + read-only flags observe every write NumPy performs on the tracked arrays; object cells are digested '
            'recursively over vars(obj) (every attribute, nested lentil objects, lists, dicts)',
            'np.random.get_state() captures the whole state of the global generator']
-UNPROVEN = ['plane-state confluence: PROVED at model level (plane_state_total_invariant, composed with C04 fit_tilt_history: same total OPD update => same OPD + recorded-tilt total); that multiply/propagate depend only on that total is C04; the histories here sample it',
+UNPROVEN = ['plane-state confluence on the real code is sampled; at model level it is PROVED (plane_state_total_invariant, composed with C04 fit_tilt_history: same total OPD update => same OPD + recorded-tilt total); that multiply/propagate depend only on that total is C04; the histories here sample it',
             'each effect summary (row of Gen/Effects.lean) is faithful to the NumPy-level behaviour of the function: sampled by the histories',
-            'plane-state confluence (same opd + recorded tilt reached by different update/fit_tilt orders => same multiply/propagate '
-            'result): sampled by the confluence cases, no theorem',
             'a result depends only on the current arguments: proved for the shared cache and the global generator (the only shared '
-            'state the scan finds); bit-for-bit repeatability of every call is sampled']
+            'state the scan finds) — per-OBJECT caches (an attribute memoised on a plane) are visible to the scan only as attribute writes of a getter; bit-for-bit repeatability of every call and "a rescaled/copied plane behaves like a fresh one" are sampled']
 ASSUMPTIONS = ['histories consist of public API functions known to the scan']
 
 # ------------------------------------------------------------------------------------------ generation
@@ -202,8 +200,8 @@ def _catalogue(w, rng, focus):
     import lentil
     D = lentil.detector
     ops = []
-    def op(fn, bind, call, inplace=(), rng_ok=False, pure=True, reskind=None, weight=1, returns_arg=False, flag=None, expect=None):
-        fn = fn if fn.startswith('caller.') else _resolve_label(fn, w.cells[bind['self']] if 'self' in bind else None)
+    def op(fn, bind, call, inplace=(), rng_ok=False, pure=True, reskind=None, weight=1, returns_arg=False, flag=None, expect=None, setter=False):
+        fn = fn if fn.startswith('caller.') else _resolve_label(fn, w.cells[bind['self']] if 'self' in bind else None) + ('.setter' if setter else '')
         ops.append(dict(fn=fn, flag=flag, expect=expect, bind=bind, call=call, inplace=set(inplace), rng_ok=rng_ok, pure=pure, reskind=reskind, weight=weight,
                         returns_arg=returns_arg))
     C = w.cells
@@ -255,7 +253,7 @@ def _catalogue(w, rng, focus):
             op('plane.Plane.global_mask', {'self': pm}, lambda: np.array(PM.global_mask), reskind='res')
             op('plane.Plane.diameter', {'self': pm}, lambda: PM.diameter, reskind='res')
             def setamp(): PM.amplitude = C[a2]
-            op('plane.Plane.amplitude', {'self': pm, 'value': a2}, setamp, inplace=[pm], pure=False, returns_arg=True)
+            op('plane.Plane.amplitude', {'self': pm, 'value': a2}, setamp, inplace=[pm], pure=False, returns_arg=True, setter=True)
         R2 = lentil.radiometry
         op('radiometry.planck_radiance', {}, lambda: R2.planck_radiance(np.array([500., 600., 700.]), 5000.0), reskind='res')
         op('radiometry.planck_exitance', {}, lambda: R2.planck_exitance(np.array([500., 600., 700.]), 5000.0), reskind='res')
@@ -335,7 +333,7 @@ def _catalogue(w, rng, focus):
                 op('plane.Plane.fit_tilt', {'self': p}, lambda: P.fit_tilt(inplace=True), inplace=[p] + refs, pure=False, returns_arg=True, weight=3, flag=True)
             o2 = w.pick(rng, 'opd')
             def setopd(): P.opd = C[o2]
-            if P.shape == (N, N): op('plane.Plane.opd', {'self': p, 'value': o2}, setopd, inplace=[p], pure=False, returns_arg=True)
+            if P.shape == (N, N): op('plane.Plane.opd', {'self': p, 'value': o2}, setopd, inplace=[p], pure=False, returns_arg=True, setter=True)
             s = [0.5, 1.0, 1.5, 2.0][int(rng.integers(0, 4))]
             if 6 <= min(P.shape) * s and max(P.shape) * s <= 6 * N:      # (a plane shrunk until its mask vanishes cannot be sliced)
                 op('plane.Plane.rescale', {'self': p}, lambda: P.rescale(s), reskind='plane')
@@ -357,11 +355,18 @@ def _catalogue(w, rng, focus):
             W2 = C[wi]
             op('wavefront.Wavefront.intensity', {'self': wi}, lambda: W2.intensity, reskind='res')
             oi = w.pick(rng, 'out_img')
-            if tuple(W2.shape) and all(s <= 2 * N for s in W2.shape):
-                big = w.pick(rng, 'out_img')
-                def ins():
-                    tgt = np.zeros(W2.shape); return W2.insert(tgt)
-                op('wavefront.Wavefront.insert', {'self': wi}, ins, reskind='res')
+            if tuple(W2.shape):
+                # accumulate into the caller's tracked buffer (documented in-place on `out`; the wavefront itself must not change)
+                op('wavefront.Wavefront.insert', {'self': wi, 'out': oi}, lambda: W2.insert(C[oi], weight=0.5), inplace=[oi], pure=False,
+                   returns_arg=True, weight=3)
+        # FFT propagation with a caller-supplied scratch buffer (documented in-place on `scratch`): the wavefront is built on the spot
+        # from a plane that carries no tilt, so that the op is reachable in every history
+        pnt = w.pick(rng, 'plane', lambda x, i: x.ptype == lentil.pupil and not x.tilt and x.shape == (N, N))
+        if pnt is not None:
+            sc2 = w.pick(rng, 'scratch'); PN = C[pnt]
+            op('propagate.propagate_fft', {'scratch': sc2},
+               lambda: lentil.propagate_fft(lentil.Wavefront(650e-9) * PN, pixelscale=DU_FFT, shape=8, oversample=2, scratch=C[sc2]),
+               inplace=[sc2], reskind='wf', pure=False, weight=3)
     if focus in ('mixed', 'fourier'):
         f = w.pick(rng, 'cx'); oc = w.pick(rng, 'out_cx')
         off = (int(rng.integers(-3, 4)), int(rng.integers(-3, 4))); shf = (float(rng.integers(-2, 3)), float(rng.integers(-2, 3)))
@@ -515,7 +520,32 @@ def _confluence(c):
 
 def _witness(c):
     """fixed defects found by the effect scan (corpus): the caller's object must be left untouched"""
+    try:
+        return _witness_body(c)
+    except Exception as e:        # an exception on a legitimate history is the violation, with this case as the replay
+        return {'untouched': False, 'what': f"{c['which']}: the calls raised {type(e).__name__}: {e}"[:200]}
+
+def _witness_body(c):
     lentil = vlib.import_lentil()
+    if c['which'] == 'rescaled-plane-depends-only-on-its-state':
+        # a result depends only on the current arguments: a plane whose tilt basis was evaluated before it is rescaled must behave like
+        # a fresh plane with the same attributes (no stale per-object cache carried across rescale/copy)
+        yy, xx = np.mgrid[0:12, 0:12]
+        amp = ((yy - 6) ** 2 + (xx - 6) ** 2 <= 20).astype(float)
+        opd = 1e-7 * (0.3 * (xx - 6) + 0.1 * (yy - 6)) * amp
+        p = lentil.Pupil(amplitude=amp, opd=opd, pixelscale=1e-3, focal_length=10)
+        _ = p.ptt_vector
+        p.fit_tilt()
+        ok, why = True, ''
+        for q in (p.rescale(1.5), p.resample(2e-3), p.copy().rescale(2)):
+            fresh = lentil.Pupil(amplitude=np.array(q.amplitude), opd=np.array(q.opd), mask=np.array(q.mask), pixelscale=q.pixelscale, focal_length=10)
+            a, b = q.ptt_vector, fresh.ptt_vector
+            if a.shape != b.shape or not np.array_equal(a, b):
+                ok, why = False, f'ptt_vector of the rescaled plane has shape {a.shape}, a fresh plane with the same attributes {b.shape}'
+                continue
+            fa, fb = q.fit_tilt(), fresh.fit_tilt()
+            if not np.array_equal(fa.opd, fb.opd): ok, why = False, 'fit_tilt of the rescaled plane differs from a fresh plane with the same attributes'
+        return {'untouched': ok, 'what': 'history dependence: ' + why if not ok else 'rescaled plane behaves like a fresh one'}
     if c['which'] == 'spectrum-bin-foreign-unit':
         s = lentil.radiometry.Spectrum(np.arange(400, 701, 50.), np.linspace(1, 2, 7), waveunit='nm')
         d0 = _digest(s); s.bin(np.array([0.45, 0.5, 0.55, 0.6]), waveunit='um')
@@ -619,6 +649,8 @@ def _smoke(c):
     for fn in rows:
         parts = fn.split('.')
         rec = {'fn': fn}
+        if parts[-1] in ('setter', 'deleter'):
+            rec['status'] = 'no fixture: property setter (documented attribute assignment; exercised by the histories)'; out.append(rec); continue
         try:
             mod = importlib.import_module('lentil.' + parts[0])
             if len(parts) == 2: target, inst = getattr(mod, parts[1]), None
@@ -712,7 +744,8 @@ def oracle(c, io):
             if r.get('rng') and r['fn'] not in ('detector.cosmic_rays', 'convolvable.smear'): return f"{r['fn']} read or advanced the global random state"
         return None
     if c['kind'] == 'witness':
-        return None if io['untouched'] else f"{io['what']} modified the caller's object"
+        if io['untouched']: return None
+        return io['what'] if io['what'].startswith(('history dependence', c['which'])) else f"{io['what']} modified the caller's object"
     if c['kind'] == 'confluence':
         # (a segment only a few pixels wide makes the per-segment least-squares fit ill-conditioned: residual OPDs are compared for monoliths)
         if c['segments'] == 1 and io['opd_diff'] > 1e-9: return f"same OPD + tilt reached in two orders, but residual OPDs differ by {io['opd_diff']:.3g} (relative)"
